@@ -426,22 +426,43 @@ func (in *Interp) hashUF(kind string, input []*Term, outBytes int) []*Term {
 	}
 	app := &hashApp{input: input, out: out}
 	for _, o := range in.hashApps[kind] {
-		outEq := ts.True
-		for i := range out {
-			outEq = ts.And(outEq, ts.Eq(out[i], o.out[i]))
+		// digests compared as whole words (the byte extracts re-fuse into the wide variable)
+		wa, wb := out[0], o.out[0]
+		for i := 1; i < len(out) && i < len(o.out); i++ {
+			wa, wb = ts.Concat(wa, out[i]), ts.Concat(wb, o.out[i])
 		}
+		outEq := ts.Eq(wa, wb)
 		if len(o.input) != len(input) {
 			in.assume(ts.Not(outEq))
 			continue
 		}
-		inEq := ts.True
-		for i := range input {
-			inEq = ts.And(inEq, ts.Eq(input[i], o.input[i]))
-		}
-		in.assume(ts.Eq(inEq, outEq))
+		in.assume(ts.Eq(fusedBytesEq(ts, input, o.input), outEq))
 	}
 	in.hashApps[kind] = append(in.hashApps[kind], app)
 	return out
+}
+
+// fusedBytesEq is the conjunction a[i] == b[i], with runs of bytes that are
+// adjacent extracts of one term (a digest fed into another digest) or
+// constants compared as one word: the equality of two embedded digests is then
+// the same atom as the one collision-freedom speaks about.
+func fusedBytesEq(ts *TermStore, a, b []*Term) *Term {
+	if len(a) == 0 {
+		return ts.True
+	}
+	fused := func(t *Term) bool { return t.op != OpConcat && t.op != OpZExt }
+	eq := ts.True
+	ca, cb := a[0], b[0]
+	for i := 1; i < len(a); i++ {
+		na, nb := ts.Concat(ca, a[i]), ts.Concat(cb, b[i])
+		if fused(na) && fused(nb) {
+			ca, cb = na, nb
+			continue
+		}
+		eq = ts.And(eq, ts.Eq(ca, cb))
+		ca, cb = a[i], b[i]
+	}
+	return ts.And(eq, ts.Eq(ca, cb))
 }
 
 // verifHash(kind string, data []byte, n int) []byte : UF digest of n bytes
